@@ -10,6 +10,58 @@ os.makedirs(out, exist_ok=True)
 subst = {}
 for extra in os.environ.get("VERIF_EXTRA_OVERLAY", "").split():
     subst.update(json.load(open(extra))["Replace"])
+def match(src, i, open_ch, close_ch):
+    """index of the bracket closing the one at src[i]; skips strings, runes and comments"""
+    depth = 0
+    n = len(src)
+    while i < n:
+        c = src[i]
+        if c == '"':
+            i += 1
+            while src[i] != '"':
+                i += 2 if src[i] == "\\" else 1
+        elif c == '`':
+            i = src.index('`', i + 1)
+        elif c == "'":
+            i += 1
+            while src[i] != "'":
+                i += 2 if src[i] == "\\" else 1
+        elif src.startswith('//', i):
+            i = src.index('\n', i)
+            continue
+        elif src.startswith('/*', i):
+            i = src.index('*/', i) + 1
+        elif c == open_ch:
+            depth += 1
+        elif c == close_ch:
+            depth -= 1
+            if depth == 0:
+                return i
+        i += 1
+    raise ValueError("unbalanced")
+
+def hook_spawns(src, rel):
+    """`go func(..) {..}(args)` -> `go sync.G(func(..) {..})(args)`: every spawn is announced to the scheduler"""
+    out, i, n = [], 0, 0
+    while True:
+        j = src.find('go func(', i)
+        if j < 0:
+            out.append(src[i:])
+            break
+        k = j + 3
+        try:
+            close_params = match(src, src.index('(', k), '(', ')')
+            body_open = src.index('{', close_params)
+            body_close = match(src, body_open, '{', '}')
+        except ValueError:
+            sys.exit("sync_rewrite: cannot delimit a go statement in " + rel)
+        out.append(src[i:j] + 'go sync.G(' + src[k:body_close + 1] + ')')
+        i = body_close + 1
+        n += 1
+    if n == 0:
+        return src
+    return ''.join(out) + "\n// generated: spawns of this file are announced to the scheduler through sync.G\nvar _ = sync.HookSpawns()\n"
+
 rep = {}
 for rel in sys.argv[2:]:
     path = os.path.join(R, rel)
@@ -23,6 +75,7 @@ for rel in sys.argv[2:]:
         if pat not in new:
             sys.exit("sync_rewrite: range over types.TrimDepths not found in " + rel)
         new = new.replace(pat, "for _, denomination := range sync.OrderU8(types.TrimDepths) {\n\t\tdepth := types.TrimDepths[denomination]", 1)
+    new = hook_spawns(new, rel)
     dst = os.path.join(out, rel.replace("/", "__"))
     open(dst, "w").write(new)
     rep[path] = dst
